@@ -18,7 +18,7 @@ PATHS = ["ra", "ralen", "outdeg", "iter", "iter_from", "next_from", "seq_iter", 
 # input lists; scan degrees = list lengths; scan offsets = Elias-Fano entries = record positions
 ORACLE = {"i_load"} | {"i_" + p for p in PATHS} | {"degs", "offs", "ef", "depth"}
 # model against implementation
-CORR = {"rt", "m_ra", "m_merge", "m_outdeg", "m_iter_from", "m_iter_ring", "m_seq_from", "m_next", "m_offdeg", "m_offdeg_from",
+CORR = {"rt", "m_ra", "m_merge", "m_outdeg", "m_iter_from", "m_iter_ring", "m_seq_from", "m_next", "m_offdeg", "m_offdeg_from", "m_offdeg_ring", "m_offdeg_from_ring",
         "m_fuel"}
 
 
